@@ -99,7 +99,15 @@ class Ctx:
                 kf.append((v, known_keys[v["key"]]))
             else:
                 new.append(v)
-        os.makedirs(os.path.join(EVIDENCE_DIR, "violations"), exist_ok=True)
+        vdir = os.path.join(EVIDENCE_DIR, "violations")
+        os.makedirs(vdir, exist_ok=True)
+        # replay files of earlier runs of this property are stale now
+        for old in os.listdir(vdir):
+            if old.startswith(self.prop + "_"):
+                try:
+                    os.remove(os.path.join(vdir, old))
+                except OSError:
+                    pass
         lines = []
         for v, k in kf:
             lines.append("KNOWN-FINDING: property=%s %s [%s]" % (self.prop, k.get("what", v["message"]), v["key"]))
